@@ -711,6 +711,25 @@ class Enumerator:
                             return True
                 return False
 
+            # desugaring of iterables that are built on the spot from other iterables (no loop-level break / continue, no else):
+            #   for t in A + B: body            ==  for t in A: body ; for t in B: body
+            #   for t in [E for x in it]: body  ==  for x in it: t = E ; body        (E a side-effect-free display of names)
+            if not loop_level_jump(s.body):
+                it0 = self.subst(s.iter, st)
+                if isinstance(it0, ast.BinOp) and isinstance(it0.op, ast.Add) and all(isinstance(x, (ast.List, ast.Tuple, ast.ListComp, ast.BinOp)) for x in (it0.left, it0.right)):
+                    parts = [ast.copy_location(ast.For(s.target, side, s.body, [], None), s) for side in (it0.left, it0.right)]
+                    for x in parts:
+                        ast.fix_missing_locations(x)
+                    return self.exec_block(parts, st)
+
+                def pure(e):
+                    return all(isinstance(n, (ast.Tuple, ast.List, ast.Name, ast.Constant, ast.Attribute, ast.Load, ast.Store)) for n in ast.walk(e))
+
+                if isinstance(it0, (ast.ListComp, ast.GeneratorExp)) and len(it0.generators) == 1 and not it0.generators[0].ifs and not it0.generators[0].is_async and pure(it0.elt):
+                    g0 = it0.generators[0]
+                    inner = ast.copy_location(ast.For(g0.target, g0.iter, [ast.copy_location(ast.Assign([s.target], it0.elt), s)] + s.body, [], None), s)
+                    ast.fix_missing_locations(inner)
+                    return self.exec_block([inner], st)
             g = self._generator_of(s.iter, st)
             if g is not None and not loop_level_jump(s.body):
                 spliced = self._splice_generator(s, *g)
